@@ -650,6 +650,7 @@ class RTCSctpTransport(AsyncIOEventEmitter):
         # inbound
         self._advertised_rwnd = 1024 * 1024
         self._inbound_streams: dict[int, InboundStream] = {}
+        self._inbound_streams_reset: dict[int, int] = {}
         self._inbound_streams_count = 0
         self._inbound_streams_max = MAX_STREAMS
         self._last_received_tsn: Optional[int] = None
@@ -1130,6 +1131,14 @@ class RTCSctpTransport(AsyncIOEventEmitter):
         if self._mark_received(chunk.tsn):
             return
 
+        # discard what the peer sent on the stream before it reset it
+        reset_tsn = self._inbound_streams_reset.get(chunk.stream_id)
+        if reset_tsn is not None:
+            if uint32_gte(reset_tsn, chunk.tsn):
+                return
+            if uint32_gte(self._last_received_tsn, reset_tsn):
+                del self._inbound_streams_reset[chunk.stream_id]
+
         # find stream
         inbound_stream = self._get_inbound_stream(chunk.stream_id)
 
@@ -1299,6 +1308,7 @@ class RTCSctpTransport(AsyncIOEventEmitter):
             # mark closed inbound streams
             for stream_id in param.streams:
                 self._inbound_streams.pop(stream_id, None)
+                self._inbound_streams_reset[stream_id] = param.last_tsn
 
                 # close data channel
                 channel = self._data_channels.get(stream_id)
